@@ -146,7 +146,7 @@ def shared_part(ctx, c):
 def msgnest_part(ctx, c):
     """bundles nested in messages (completion messages): the bytes read back versus the Coq stamping model evaluated at the
     logical time the sending thread observed (inside routines) / the time the main thread read (outside, bracketed)."""
-    for mode, n in (('nrt', ctx.n(45, 450)), ('rt', ctx.n(24, 160))):
+    for mode, n in (('nrt', ctx.n(30, 450)), ('rt', ctx.n(18, 160))):
         rt = mode == 'rt'
         prs = [K.gen_msgnest(ctx.rng, k, rt) for k in range(n)]
         res = ctx.impl('c05_kscript', {'msgnest': prs, 'seed': ctx.seed}, mode=mode, timeout=900)['msgnest_out']
@@ -183,7 +183,7 @@ def msgnest_part(ctx, c):
 
 def nextdrive_part(ctx, c):
     """routines stepped with next() from outside any clock (main thread, also through a second routine) and from inside late routines"""
-    for mode, n in (('nrt', ctx.n(24, 240)), ('rt', ctx.n(20, 120))):
+    for mode, n in (('nrt', ctx.n(18, 240)), ('rt', ctx.n(14, 120))):
         rt = mode == 'rt'
         prs = [K.gen_nextdrive(ctx.rng, k, rt) for k in range(n)]
         res = ctx.impl('c05_kscript', {'nextdrive': prs, 'seed': ctx.seed}, mode=mode, timeout=900)['nextdrive_out']
@@ -215,6 +215,77 @@ def nextdrive_part(ctx, c):
                                       'model says. Probe: %s Observed: %s' % (mode.upper(), json.dumps(prs[b]), json.dumps(res[b])[:600]),
                                       theorem='stamp_is_logical_plus_latency', found_input=True,
                                       replay={'probe': prs[b], 'observed': res[b], 'mode': mode, 'payload_key': 'nextdrive'}))
+
+
+def fntask_part(ctx, c):
+    """plain functions woken by a clock that send bundles: due at the wake-up's logical time + latency (NRT score time and timetag, RT
+    timetag); bytes read back versus the Coq stamping kernel relative to that time; unpatched NRT stamps them absolute from zero."""
+    for mode, n in (('nrt', ctx.n(30, 400)), ('rt', ctx.n(15, 120))):
+        rt = mode == 'rt'
+        prs = [K.gen_fntask(ctx.rng, k, rt) for k in range(n)]
+        res = ctx.impl('c05_kscript', {'fntask': prs, 'seed': ctx.seed}, mode=mode, timeout=900)['fntask_out']
+        c.evaluations += len(prs)
+        items, owner = [], []
+        direct = 0
+        for i, (pr, o) in enumerate(zip(prs, res)):
+            if 'fatal' in o:
+                c.failures.append(Failure('correspondence', 'function-task probe crashed: %s' % o['fatal'][-400:], replay={'probe': pr}))
+                continue
+            if not o.get('done'):
+                c.count('%s:function task not completed in time (machine load); not compared' % mode)
+                continue
+            c.count('%s:function task on %s scheduled from %s' % (mode, K.clock_name(pr['clock']), 'the main thread' if pr['from'] is None else 'a routine on ' + K.clock_name(pr['from'])))
+            c.nontriv(('fntask', mode, json.dumps(pr, sort_keys=True)))
+            exp_t = K.fntask_times(pr, o, mode)
+            if exp_t is not None and [Fraction(r['t']) for r in o['runs']] != exp_t and direct < 2:
+                direct += 1
+                c.failures.append(Failure('correspondence', '%s: a function scheduled with %s.sched(%s, f) %s runs at logical time %s, expected %s. Probe: %s'
+                                          % (mode.upper(), K.clock_name(pr['clock']), pr['delta'], 'from the main thread' if pr['from'] is None else 'from a routine at %s' % o.get('T'),
+                                             [r['t'] for r in o['runs']], [str(x) for x in exp_t], json.dumps(pr)), found_input=True,
+                                          theorem='stamp_outside_is_now_plus_latency', replay={'probe': pr, 'observed': o, 'mode': mode, 'payload_key': 'fntask'}))
+            if 'bounds' in o and pr['clock'] != 'A':
+                d = Fraction(pr['delta']) / (Fraction(1) if pr['clock'] in ('S', 'A') else Fraction(pr['tempos'][pr['clock'][1]]))
+                t = Fraction(o['runs'][0]['t'])
+                if not (Fraction(o['bounds'][0]) + d <= t <= Fraction(o['bounds'][1]) + d) and direct < 2:
+                    direct += 1
+                    c.failures.append(Failure('correspondence', 'RT: a function scheduled from the main thread with delay %s runs at logical time %s, outside [%s, %s] + delay'
+                                              % (pr['delta'], t, o['bounds'][0], o['bounds'][1]), found_input=True, replay={'probe': pr, 'observed': o}))
+            for r in o['runs']:
+                obs = 'None' if r['raised'] else '(Some %s)' % K.selem(r['tree'])
+                if rt:
+                    md = '(MRt %s)' % fw.cz(int(o['osc_offset']))
+                    items.append('(if agree (stamp_bundle %s %s %s %s) %s then 0 else 2)%%nat' % (md, K.q(r['t']), K.olat(pr['lat']), fw.clist(pr['es'], K.elem), obs))
+                else:
+                    args = '%s %s %s' % (K.q(r['t']), K.olat(pr['lat']), fw.clist(pr['es'], K.elem))
+                    items.append('(if oselem_eqb (stamp_bundle (MNrt true) %s) %s then 0 else if oselem_eqb (stamp_bundle (MNrt false) %s) %s then 1 else 2)%%nat'
+                                 % (args, obs, args, obs))
+                owner.append((i, r))
+        res2 = ctx.coq_shards('fntask_' + mode, K.MSGNEST_HEADER, items, 'Eval vm_compute in cases.', shard=150)
+        codes = []
+        for rc, out, base in res2:
+            cs = fw.parse_nat_list(out) if rc == 0 else None
+            if cs is None:
+                c.failures.append(Failure('correspondence', 'coq evaluation of function-task cases failed: ' + out[-800:]))
+                cs = []
+            codes.extend(cs)
+        rep = {1: 0, 2: 0}
+        for (i, r), code in zip(owner, codes):
+            if code == 0 or rep[code] >= 1:
+                continue
+            rep[code] += 1
+            pr, o = prs[i], res[i]
+            if code == 1:
+                c.failures.append(Failure(
+                    'correspondence', 'NRT: a plain function woken by %s at logical time %s sends a bundle with latency %s: the score lists it at the ABSOLUTE time '
+                    '%s (latency from zero) instead of %s + latency -- outside routines a bundle carries the current time plus L, and the current time of this '
+                    'wake-up is %s (RT stamps it wake-up time + L). Probe: %s' % (K.clock_name(pr['clock']), r['t'], pr['lat'], r['tree'][2] if r['tree'] else None, r['t'], r['t'], json.dumps(pr)),
+                    signature=K.SIGNATURES['FN'], theorem='stamp_outside_is_now_plus_latency', found_input=True,
+                    replay={'probe': pr, 'observed': o, 'mode': mode, 'payload_key': 'fntask',
+                            'how': 'SC3_MODE=nrt PYTHONPATH=$SC3_REPO:/verif/harness python harness/impl/c05_kscript.py <in.json with {"fntask":[probe]}> out.json'}))
+            else:
+                c.failures.append(Failure('correspondence', '%s: the bundle a function task sends at logical time %s (latency %s) is not stamped as the stamping model says: %s. Probe: %s'
+                                          % (mode.upper(), r['t'], pr['lat'], json.dumps(r['tree']), json.dumps(pr)), theorem='stamp_outside_is_now_plus_latency',
+                                          found_input=True, replay={'probe': pr, 'observed': o, 'mode': mode, 'payload_key': 'fntask'}))
 
 
 def heap_part(ctx, c):
@@ -279,24 +350,33 @@ def close_part(ctx, c):
                                   replay={'program': p, 'observed_score': o['score'], 'observed_elapsed': o['elapsed']}))
 
 
+def _timed(name, f, *a, **k):
+    import time as _t
+    t0 = _t.time()
+    r = f(*a, **k)
+    fw.log('    C07 part %-12s %.1fs' % (name, _t.time() - t0))
+    return r
+
+
 def correspond(ctx):
     c = Corr()
-    unit_part(ctx, c)
-    close_part(ctx, c)
-    msgnest_part(ctx, c)
-    nextdrive_part(ctx, c)
-    # every TempoClock state-changing entry point (tempo, etempo, beats, beats_per_bar) used by a routine that keeps sending
-    T.generic_probe_part(ctx, c, 'clockseq', 'clockseq_out', K.gen_clockseq, K.clockseq_expected,
-                         (('nrt', ctx.n(32, 320)), ('rt', ctx.n(18, 120))), 'stamp_is_logical_plus_latency',
-                         'clock state changes then sends')
-    # RT AppClock tasks with other entries queued; main-thread sends racing a slow task on each clock thread
-    T.generic_probe_part(ctx, c, 'appclock', 'appclock_out', K.gen_appclock, K.appclock_expected, (('rt', ctx.n(10, 60)),),
-                         'stamp_is_logical_plus_latency', 'AppClock tasks with other entries queued')
-    T.generic_probe_part(ctx, c, 'race', 'race_out', K.gen_race, K.race_expected, (('rt', ctx.n(9, 45)),),
-                         'stamp_outside_is_now_plus_latency', 'main-thread sends racing a slow clock task')
-    heap_part(ctx, c)
-    shared_part(ctx, c)
-    cases, outs = T.nrt_part(ctx, c, ctx.n(150, 1500), MINE, None)
+    _timed('unit', unit_part, ctx, c)
+    _timed('close', close_part, ctx, c)
+    _timed('msgnest', msgnest_part, ctx, c)
+    _timed('fntask', fntask_part, ctx, c)
+    _timed('nextdrive', nextdrive_part, ctx, c)
+    # one library process per mode for: oversized bundles (send_clumped_bundles / BundleNetAddr / sync); every TempoClock state change by a
+    # routine that keeps sending, with other routines pending on the clock; RT AppClock tasks with other entries queued; main-thread sends
+    # racing a slow task on each clock thread
+    _timed('multi', T.multi_probe_part, ctx, c, [
+        ('clumps', 'clumps_out', K.gen_clump, K.clump_expected, {'nrt': ctx.n(32, 480), 'rt': ctx.n(28, 240)}, 'none_or_negative_is_immediately', 'oversized bundle'),
+        ('clockseq', 'clockseq_out', K.gen_clockseq, K.clockseq_expected, {'nrt': ctx.n(20, 320), 'rt': ctx.n(12, 120)}, 'stamp_is_logical_plus_latency', 'clock state changes then sends'),
+        ('appclock', 'appclock_out', K.gen_appclock, K.appclock_expected, {'rt': ctx.n(10, 60)}, 'stamp_is_logical_plus_latency', 'AppClock tasks with other entries queued'),
+        ('race', 'race_out', K.gen_race, K.race_expected, {'rt': ctx.n(9, 45)}, 'stamp_outside_is_now_plus_latency', 'main-thread sends racing a slow clock task'),
+    ])
+    _timed('heap', heap_part, ctx, c)
+    _timed('shared', shared_part, ctx, c)
+    cases, outs = _timed('nrt', T.nrt_part, ctx, c, ctx.n(150, 1500), MINE, None)
     # list form versus raw bytes, entry by entry (any depth), on EVERY NRT run of this check -- no model involved
     for p_, o_ in zip(cases, outs):
         if 'fatal' in o_:
@@ -317,13 +397,10 @@ def correspond(ctx):
                                       % (two[0][2], json.dumps(p_)), theorem='score_times_exact_timetags', found_input=True,
                                       replay={'program': p_, 'observed_score': o_['score'], 'all': [t[2] for t in two][:10]}))
             break
-    T.rt_part(ctx, c, ctx.n(30, 270))
+    _timed('rt', T.rt_part, ctx, c, ctx.n(30, 270))
     # timetag = logical time + latency after a tempo / beats change issued by a LATE routine of that clock (harness oracle)
-    T.probe_part(ctx, c, only_ops=('tempo', 'beats'), modes=('rt',))
+    _timed('rtprobe', T.probe_part, ctx, c, only_ops=('tempo', 'beats'), modes=('rt',))
     # oversized bundles: send_clumped_bundles / BundleNetAddr / sync(elements), latency None, negative, 0, positive
-    T.generic_probe_part(ctx, c, 'clumps', 'clumps_out', K.gen_clump, K.clump_expected,
-                         (('nrt', ctx.n(48, 480)), ('rt', ctx.n(48, 240))), 'none_or_negative_is_immediately',
-                         'oversized bundle')
     nb = 0
     for o in outs:
         if 'fatal' not in o:
